@@ -706,3 +706,39 @@ Proof.
   destruct (probe_loop_ok bs sy se ti table n hs' st0 0%N _ Hinv Hc Htl' Has) as (st' & Hst & Hext).
   rewrite Hst, Hext, map_length. reflexivity.
 Qed.
+
+(** * Round trip: a consistent disk set, passed in any order, reads the
+      concatenation of its data areas *)
+Theorem diskset_roundtrip ds hs hs' pos :
+  Forall sdisk_ok ds ->
+  map disk_of hs = headers_of ds 0 ->
+  consistent_set hs -> Permutation hs hs' ->
+  0 <= pos < Z.of_nat (length (set_data ds)) -> pos <= OFF_MAX ->
+  exists exts f fp k d h,
+    probe_set false hs' = inl exts /\
+    walk exts pos = WAt f fp /\
+    nth_error hs' (N.to_nat f) = Some h /\ h_num h = N.of_nat (S k) /\
+    nth_error ds k = Some d /\ 0 <= fp /\
+    nth (Z.to_nat fp) (s_file d) 0%N = nth (Z.to_nat pos) (set_data ds) 0%N.
+Proof.
+  intros Hok Hmap Hcons Hp Hpos Hmax.
+  destruct (consistent_accepted_any_order hs hs' Hcons Hp) as (exts & Hprobe & Hasm').
+  destruct (assemble_in_order ds) as (Hcs & Hasm).
+  destruct (walk_concat ds 0%N pos Hok Hpos Hmax) as (k & d & fp & Hk & Hw & Hfp & Hbyte).
+  (* the answer for the files in disk order *)
+  assert (Hloc : locate (headers_of ds 0) pos = Some (N.of_nat (S k), fp)).
+  { unfold locate. rewrite Hasm, Hw.
+    replace (N.to_nat (0 + N.of_nat k)) with k by lia.
+    rewrite nth_error_headers, Hk. cbn [option_map d_num]. reflexivity. }
+  (* the same answer in the order passed *)
+  assert (Hperm : Permutation (headers_of ds 0) (map disk_of hs')).
+  { rewrite <- Hmap. now apply Permutation_map. }
+  assert (Hp0 : 0 <= pos) by lia.
+  rewrite (locate_any_order _ _ pos Hcs Hperm Hp0) in Hloc.
+  unfold locate in Hloc. rewrite Hasm' in Hloc.
+  destruct (walk exts pos) as [f fp'| |w] eqn:Hw'; try discriminate.
+  rewrite nth_error_map in Hloc.
+  destruct (nth_error hs' (N.to_nat f)) as [h|] eqn:Hh; cbn [option_map] in Hloc; [|discriminate].
+  injection Hloc as Hnum ->.
+  exists exts, f, fp, k, d, h. repeat split; try assumption; try reflexivity.
+Qed.
